@@ -260,7 +260,11 @@ fn run_call(
         return (out, vec![]);
     }
 
-    let custom = call["k_map"].as_array().map(|a| a.iter().map(|x| x.as_u64().unwrap_or(0) as u16).collect::<Vec<u16>>());
+    let mut custom = call["k_map"].as_array().map(|a| a.iter().map(|x| x.as_u64().unwrap_or(0) as u16).collect::<Vec<u16>>());
+    let unit_cmask = call["unit_cmask"].as_u64();
+    if unit_cmask.is_some() && custom.is_none() {
+        custom = Some(vec![k; bn.num_vars()]);
+    }
     let g_res = if let Some(km) = custom {
         // a graph whose network variables have DIFFERENT numbers of spare variable sets (public API)
         (|| -> Result<SymbolicAsyncGraph, String> {
@@ -269,7 +273,29 @@ fn run_call(
                 map.insert(v, *n);
             }
             let ctx = biodivine_lib_param_bn::symbolic_async_graph::SymbolicContext::with_extra_state_variables(&bn, &map)?;
-            let unit = ctx.mk_constant(true);
+            let mut unit = ctx.mk_constant(true);
+            if let Some(seed) = unit_cmask {
+                // a custom unit set: a pseudo-random subset of the colours (a graph built for the network
+                // through the public with_custom_context)
+                let rows = colour_rows(&ctx, &bn);
+                let mut rng = StdRng::seed_from_u64(seed);
+                let vs = ctx.bdd_variable_set();
+                let mut keep = vs.mk_false();
+                for c in 0..(1u64 << rows.len()) {
+                    if rng.gen_range(0..3) > 0 {
+                        let mut cube = vs.mk_true();
+                        for (j, r) in rows.iter().enumerate() {
+                            cube = cube.and(&vs.mk_literal(*r, (c >> j) & 1 == 1));
+                        }
+                        keep = keep.or(&cube);
+                    }
+                }
+                // keep at least one valid colour (otherwise no graph exists for the subset)
+                let plain = SymbolicAsyncGraph::with_custom_context(&bn, ctx.clone(), ctx.mk_constant(true))?;
+                if !plain.unit_colored_vertices().as_bdd().and(&keep).is_false() {
+                    unit = unit.and(&keep);
+                }
+            }
             SymbolicAsyncGraph::with_custom_context(&bn, ctx, unit)
         })()
     } else {
